@@ -235,6 +235,23 @@ prop("C12", "exploration",
      [{"test": "TestC12", "quick": {"checks": 1500, "shards": 4, "timeout": 900},
        "thorough": {"checks": 15000, "shards": 16, "timeout": 3000}}])
 
+prop("C03", "exploration",
+     "cases = five generators, all forks Frontier..Cancun, all six entry points, join points on with and without bound "
+     "(failing) Aspects and provider failures: (35%) generated programs in which the eight journal opcodes are favoured and "
+     "get hostile operands (pointers around the scratch area / end of memory / 2^63 / 2^64-1 / 2^255, offsets and sizes "
+     "around 31/32/33, prepared slots), over storage holding valid, invalid and huge string length words; (30%) single "
+     "journal-instruction probes: memory of a chosen size with a chosen length word (0..2^255) at a chosen place, optional "
+     "prior registration, then one journal opcode with boundary operands at call depth 0-3 under CALL / CALLCODE / "
+     "DELEGATECALL / STATICCALL; (15%) the C14 payload space against 0x64-0x66; (10%) random bytes as code / init code; "
+     "(10%) scripted call trees with journal actions and trapping / exhausting / reverting Aspects. Validity predicate: no "
+     "entry point panics (recovered at the harness boundary; a dying child is re-run from the saved case), the call-tree "
+     "cursor is at rest after every top-level return, the event stream is balanced, and an appended trivial top-level call "
+     "is announced by CaptureStart (call depth back to 0). A state wrapper counts reads per instruction and aborts "
+     "instructions beyond 1e5 reads (reported as unbounded work, C20's open finding). Non-trivial = a journal opcode "
+     "executed, an Artela precompile reached, or an exceptional halt.",
+     [{"test": "TestC03", "savelast": True, "quick": {"checks": 5000, "shards": 4, "timeout": 900},
+       "thorough": {"checks": 50000, "shards": 16, "timeout": 3000}}])
+
 # ---------------------------------------------------------------------------
 # Text for MANIFEST.json (gen_manifest.py)
 
@@ -259,6 +276,17 @@ MANIFEST_TEXT = {
         "level_note": "Trusted: upstream core/vm as oracle; the recorder copies (gas, cost) at CaptureState/CaptureFault, "
                       "CaptureEnter/Exit, CaptureStart/End.",
         "technique": "property-based differential testing of step-level gas with generated gas-limit sweeps (rapid)",
+    },
+    "C03": {
+        "level_text": "Robustness property testing / fuzzing with a validity predicate: hostile generated byte-code, operands, "
+                      "memory and storage contents and precompile payloads; the oracle is 'returns a result or an error, and "
+                      "the bookkeeping is closed', checked from inside the process with a child-death protocol for fatal "
+                      "errors.",
+        "design_ref": "DESIGN.md section 4, C03",
+        "level_note": "Stored string lengths >= 2^20 drive VRJNAL into an unbounded read loop (open finding of C20): such "
+                      "instructions are cut off by the work governor after 1e5 reads and counted, so that the search continues "
+                      "behind them. Sampling; absence of crashes is not proved.",
+        "technique": "property-based robustness testing with hostile generators and a validity predicate (rapid)",
     },
     "C04": {
         "level_text": "Fault enumeration over generated call trees: every join-point firing position of every generated tree is "
